@@ -17,7 +17,7 @@ package header
 //@ func checksum(data []byte) (sum uint32)   props: C03
 //@   modifies nothing
 
-//@ func Write(w io.Writer, scalerType uint32, tables map[string][]byte) (n int64, err error)   props: C18 C03
+//@ func Write(w io.Writer, scalerType uint32, tables map[string][]byte) (n int64, err error)   props: C18 C03 C16
 //@   requires w != nil && len(tables) <= 65535
 //@   requires has(tables, "head") && len(tables["head"]) >= 12
 //@   ensures n == accepted(w) - old(accepted(w))
